@@ -44,4 +44,19 @@ PROPS = {
             {"driver": "load", "stage": "seq", "flavour": "asan"},
         ],
     },
+    "C08": {
+        "level": "exploration",
+        "assumptions": TRUST,
+        "stages": [{"driver": "stream", "stage": "", "flavour": "asan-full"}],
+    },
+    "C09": {
+        "level": "exploration",
+        "assumptions": TRUST,
+        "stages": [{"driver": "stream", "stage": "", "flavour": "asan"}],
+    },
+    "C10": {
+        "level": "exploration",
+        "assumptions": TRUST,
+        "stages": [{"driver": "stream", "stage": "", "flavour": "asan-full"}],
+    },
 }
